@@ -227,7 +227,7 @@ def _nodes_with_values(case):
 
 
 PRESERVING = ['rename_files', 'wrap_ns', 'perm_meta', 'perm_inputs', 'perm_tasks', 'perm_uses', 'perm_keys', 'fmt_swap', 'add_ignored',
-              'add_default', 'to_context', 'gv_change', 'add_absent_optional', 'wild_swap', 'multi_config']
+              'add_default', 'to_context', 'gv_change', 'add_absent_optional', 'wild_swap', 'multi_config', 'uses_objects']
 CHANGING = ['chg_value', 'chg_value', 'chg_value_deep', 'chg_obj_arg', 'retag', 'rewire', 'drop_optional', 'chg_context',
             'chg_default_param', 'swap_mounts']
 
@@ -470,6 +470,9 @@ def rewrite(draw, case, kinds, n_max=3):
                 a = draw(st.sampled_from(us))
                 b = draw(st.sampled_from([u for u in us if u['ns'] != a['ns']]))
                 a['ns'], b['ns'] = b['ns'], a['ns']
+        elif kind == 'uses_objects':
+            # the root config given as Config(data=...) with Config OBJECTS in `uses` instead of path strings
+            case['uses_as_objects'] = True
         elif kind == 'rename_mount':
             # the same pipeline mounted under another namespace name (x -> y): the tasks below keep their computation
             # (contexts address namespaces by name, so only context-free cases are rewritten)
